@@ -130,6 +130,13 @@ fn registry() -> Vec<CheckDef>
 			case_timeout_ms: 120_000,
 			level_text: "complete enumeration of operator x type x boundary operand pairs, all casts between integer types, two-operator expressions in both nestings, named lengths 0..8 through every parameter kind, and size-of for every member list up to length 3; each expression is evaluated by the real compiler as a constant (folded through LLVM) and at run time (lli) and both are compared with fixed-width reference arithmetic and a layout model",
 		},
+		CheckDef {
+			id: "C01",
+			drive: checks::c01::drive,
+			work: checks::c01::work,
+			case_timeout_ms: 180_000,
+			level_text: "four exhaustive families (operator x type x boundary-operand matrix incl. all comparisons and casts; all control-flow bodies up to a size bound; element type x storage x access path x access mode; every single-gap layout deviation of the data-access programs), each program compiled by the real pipeline, executed with lli and compared on full standard output and exit status with reference semantics",
+		},
 	]
 }
 
